@@ -10,6 +10,7 @@ Fixpoint enc_value (v : value) : list Z :=
   | VBool b => [1; if b then 1 else 0]
   | VList l => 2 :: Z.of_nat (length l) ::
       (fix go (l : list value) : list Z := match l with [] => [] | x :: r => enc_value x ++ go r end) l
+  | VBytes l => 4 :: Z.of_nat (length l) :: l
   | VMap d m => 3 :: Z.of_nat (length m) ::
       (fix go (m : list (Z * value)) : list Z :=
          match m with [] => [] | (k, x) :: r => k :: enc_value x ++ go r end) m
